@@ -35,6 +35,18 @@ Theorem C09_no_stuck_partial :
 Proof. exact @no_panic_after_ok. Qed.
 Print Assumptions C09_no_stuck_partial.
 
+(* ... and on every program whose reference evaluation ends in a runtime error (fragment
+   of C09_errors_partial) the machine stops with that error or runs out of fuel. *)
+Theorem C09_no_stuck_on_error_partial :
+  forall (Q : Type) (O : ops Q) (p : program Q) (n : nat) e,
+    (forall spec v, exists s, fmt_spec O spec v = Ok s) ->
+    compile_ok (compile (procs O) p) = true ->
+    run_checked_nostruct O n p = Err e ->
+    forall m, Machine.run O (compile (procs O) p) m = Fuel
+              \/ Machine.run O (compile (procs O) p) m = Err e.
+Proof. exact @no_panic_after_err. Qed.
+Print Assumptions C09_no_stuck_on_error_partial.
+
 (* PARTIAL errors: a runtime error of the reference semantics is the machine's error, same
    kind.  Partial because (1) struct LITERALS are excluded (run_checked_nostruct evaluates
    them to Wrong): the implementation evaluates the fields in reverse definition order, so
